@@ -158,6 +158,10 @@ def ensure_interp(extra_defs=(), tag="", cc="gcc", extra_flags=()):
     exe = os.path.join(d, "nelua-lua")
     with Lock("interp-" + key):
         if os.path.exists(exe):
+            try:
+                os.utime(d, None)
+            except OSError:
+                pass
             return exe
         os.makedirs(d, exist_ok=True)
         cs = sorted(f for f in os.listdir(src) if f.endswith(".c"))
@@ -172,11 +176,17 @@ def ensure_interp(extra_defs=(), tag="", cc="gcc", extra_flags=()):
             raise RuntimeError("interpreter build failed:\n" + err[-3000:])
         os.rename(exe + ".tmp", exe)
         log("built interpreter %s in %.1fs" % (key, time.time() - t))
-        # prune old interpreters (keep 6 newest)
+        # prune interpreters not used for over 3 hours (never the one just built; other keys may be
+        # building concurrently under their own lock, so only stale directories are removed)
         root = os.path.join(CACHE, "interp")
-        ds = sorted((os.path.getmtime(os.path.join(root, x)), x) for x in os.listdir(root))
-        for _, x in ds[:-6]:
-            shutil.rmtree(os.path.join(root, x), ignore_errors=True)
+        now = time.time()
+        for x in os.listdir(root):
+            px = os.path.join(root, x)
+            try:
+                if x != key and now - os.path.getmtime(px) > 3 * 3600:
+                    shutil.rmtree(px, ignore_errors=True)
+            except OSError:
+                pass
     return exe
 
 
